@@ -7,6 +7,7 @@
    has_escape l = l contains a backslash; bytes8 bs = 8 bytes, each < 256. *)
 From JV Require Import Bytes Tables U64Swar Utf8 Encoding.
 From JV.proofs Require Import SwarProofs Utf8Proofs EncodingProofs.
+From JV.proofs Require SwarArith.
 Open Scope N_scope.
 
 (* ---- Windows-1252: for EVERY byte string the decoder succeeds (no panic, the unchecked site is sound),
@@ -113,6 +114,34 @@ Theorem C12_chunk_ascii_spec : forall bs, bytes8 bs ->
   (N.land (le_word 8 bs) enc_ascii_mask =? 0) = forallb (fun b => b <? 128) bs.
 Proof. exact chunk_ascii_spec. Qed.
 Print Assumptions C12_chunk_ascii_spec.
+
+(* ---- further SWAR foundations of util.rs (not used by encoding.rs; shared with C07 / C09 / C13, pinned here
+        because util.rs is an anchor of this property and this family owns the SWAR proofs) ---- *)
+Theorem C12_swar_nonzero_lanes_spec : forall bs, bytes8 bs ->
+  nonzero_lanes (le_word 8 bs) = le_word 8 (map (fun b => if b =? 0 then 0 else 128) bs).
+Proof. exact nonzero_lanes_spec. Qed.
+
+(* leading_whitespace (after the upstream fix): number of leading lanes holding \t or \n, 8 if all do *)
+Theorem C12_swar_leading_whitespace_spec : forall bs, bytes8 bs ->
+  leading_whitespace (le_word 8 bs) = N.of_nat (length (take_while (fun b => (b =? 9) || (b =? 10)) bs)).
+Proof. exact leading_whitespace_spec. Qed.
+Print Assumptions C12_swar_leading_whitespace_spec.
+
+Theorem C12_swar_leading_whitespace_word : forall w, w < 2 ^ 64 ->
+  leading_whitespace w = N.of_nat (length (take_while (fun b => (b =? 9) || (b =? 10)) (word_bytes 8 w))).
+Proof. exact leading_whitespace_word. Qed.
+
+Theorem C12_swar_count_chunk_spec : forall bs c, SwarArith.bytes8 bs -> c < 256 ->
+  count_chunk (le_word 8 bs) c = N.of_nat (length (filter (fun b => b =? c) bs)).
+Proof. exact SwarArith.count_chunk_spec. Qed.
+Print Assumptions C12_swar_count_chunk_spec.
+
+(* Some v iff all 8 bytes are ASCII digits, v = their decimal value (first byte most significant) *)
+Theorem C12_swar_fast_digit_parse_spec : forall bs, SwarArith.bytes8 bs ->
+  fast_digit_parse (le_word 8 bs) =
+  if forallb is_digit bs then Some (fold_left (fun a x => a * 10 + (x - 48)) bs 0) else None.
+Proof. exact SwarArith.fast_digit_parse_spec. Qed.
+Print Assumptions C12_swar_fast_digit_parse_spec.
 
 (* non-vacuity *)
 Example C12_nonvacuous :
